@@ -142,6 +142,34 @@ def run(ck):
                          "html_quote: '%s' is reachable without EscapeSequences()[%s].isEmpty() being true on every path (facts: %s)"
                          % (s.desc(), chname, ", ".join(s.fact_keys())[:200]), hfl.witness(s))
 
+    ck.rule("Q2b WHO-writes the quoted output: inside html_quote the output cursor is handed to nothing but the escape copy (SBuf::copy of the table entry); apart from "
+            "that the only stores through it are the guarded raw byte (Q2) and the constant terminator. Any other call receiving the cursor (memcpy/strcpy of source "
+            "bytes, a 'pass multi-byte sequences through' shortcut) bypasses the escape table")
+    curs = sorted({n["d"] for st_ in stores for n in E.walk(st_.ev["lhs"]) if n.get("k") == "ref" and n.get("dk") == "local"})
+    ck.need(len(curs) == 1, "C32: html_quote's output cursor could not be identified: %s" % curs)
+    dstv = curs[0]
+    nwr = 0
+    for b in hq.blocks.values():
+        for ev in b["ev"]:
+            if ev.get("e") == "call":
+                x = E.strip(ev["x"])
+                args = x.get("a", [])
+                if any(dstv in E.mentions(a) for a in args):
+                    nwr += 1
+                    if x.get("f") == "SBuf::copy" and E.m_is_ref(dstv)(args[0]):
+                        ck.ok("Q2b.output-writers", hq.where(ev["l"]), "escape.copy(dst, n)")
+                    else:
+                        ck.violation("Q2b.output-writers", "Q2b|html_quote|%s" % x.get("f", "?"), hq.where(ev["l"]),
+                                     "html_quote passes its output cursor to %s: bytes reach the quoted output without going through the escape table" % E.key(x)[:120])
+            elif ev.get("e") == "asg" and E.strip(ev["lhs"]).get("k") in ("un", "idx") and dstv in E.mentions(ev["lhs"]):
+                nwr += 1
+                r = ev.get("rhs")
+                if raw(ev) or E.const(r) == 0:
+                    ck.ok("Q2b.output-writers", hq.where(ev["l"]), "store through the cursor is the guarded raw byte or the terminator")
+                else:
+                    ck.violation("Q2b.output-writers", "Q2b|html_quote|store", hq.where(ev["l"]), "html_quote stores %s through its output cursor" % E.key(r)[:100])
+    ck.need(nwr >= 3, "C32: expected the escape copy, the raw store and the terminator in html_quote, found %d output writes" % nwr)
+
     ck.rule("Q3 GINT html_quote(): the output cursor starts at buf only after buf = xcalloc(bufsize,1) with bufsize = strlen(string)*M+1 or with "
             "strlen(string)*M > bufsize established false; M >= longest escape sequence; escape.copy(dst, n) has n >= longest sequence and the cursor advances by that escape's length()")
     Ms = set()
